@@ -176,6 +176,21 @@ pub fn run(o: &Opts) -> Report {
             (mkh(), bv(&["prog", "man", "search", "--format", "yaml"]), Box::new(|m| { want_occs(m, &["man", "search"], "format", &[&["yaml"]])?; want_occs(m, &[], "format", &[&["yaml"]]) })),
         ];
         run_expect(&mut rep, o, "global-not-defined-at-a-level", cases);
+        // the command-level hyphen switches belong to the level that sets them (model and real crate)
+        let mks = || { let mut c = CmdS { name: "prog".into(), ..Default::default() };
+            c.settings.allow_hyphen_values = true; c.settings.allow_negative_numbers = true;
+            c.args.push(ArgS { id: "color".into(), long: Some("color".into()), action: Some("set"), global: true, num_vals: Some((0, Some(1))), default_missing: vec!["always".into()], ..Default::default() });
+            c.args.push(ArgS { id: "level".into(), long: Some("level".into()), action: Some("set"), global: true, ..Default::default() });
+            let mut run = CmdS { name: "run".into(), ..Default::default() };
+            run.args.push(ArgS { id: "x".into(), short: Some('x'), action: Some("setTrue"), ..Default::default() });
+            c.subs.push(run); c };
+        let sc: Vec<(CmdS, Vec<Vec<u8>>, Expect)> = vec![
+            (mks(), bv(&["prog", "run", "--color", "-x"]), Box::new(|m| { want_occs(m, &["run"], "color", &[&["always"]])?; want_occs(m, &["run"], "x", &[&["true"]])?; want_occs(m, &[], "color", &[&["always"]]) })),
+            (mks(), bv(&["prog", "--color", "-x", "run"]), Box::new(|m| { want_occs(m, &[], "color", &[&["-x"]])?; want_occs(m, &["run"], "color", &[&["-x"]]) })),
+            (mks(), bv(&["prog", "--level", "-5", "run"]), Box::new(|m| want_occs(m, &["run"], "level", &[&["-5"]]))),
+        ];
+        run_expect(&mut rep, o, "parent-switch-leaks-into-a-subcommand's-globals", sc);
+        run_expect_kind(&mut rep, o, "parent-switch-leaks-into-a-subcommand's-globals", vec![(mks(), bv(&["prog", "run", "--level", "-5"]), clap::error::ErrorKind::UnknownArgument)]);
         // real crate only (the command-level switches `Command::allow_hyphen_values` / `allow_negative_numbers` are not in
         // the model): they concern the args of the level that sets them; a global handed down to a subcommand is parsed
         // there by the subcommand's own rules
